@@ -60,7 +60,7 @@ type c35Phase struct {
 }
 
 type c35Case struct {
-	Batch  int        `json:"batch"` // auto-flush threshold set through the verif hook (0: library default 100000)
+	Batch  int        `json:"batch"`          // auto-flush threshold set through the verif hook (0: library default 100000)
 	Open   string     `json:"open,omitempty"` // "" / "path": NewDataRecorder(path); "db": NewDataRecorderWithDB on a connection with PRAGMA synchronous=OFF, journal_mode=MEMORY (same writer; no fsync / journal file per commit)
 	Procs  int        `json:"gomaxprocs,omitempty"`
 	Tables []c35Table `json:"tables"`
@@ -150,12 +150,12 @@ type c35Report struct {
 	Fails          []c35Fail `json:"fails,omitempty"`
 	Hang           string    `json:"hang,omitempty"`
 	Inserted       int       `json:"inserted"`
-	Flushes        int       `json:"flushes"`         // explicit Flush calls that returned
-	ThresholdPoss  bool      `json:"threshold_poss"`  // the batch size was reached by the number of buffered items at least once
-	Overlap        int       `json:"overlap"`         // recorder calls that saw another goroutine inside a recorder call
-	FlushOverlap   int       `json:"flush_overlap"`   // … where one of the two was an explicit Flush
-	Interleaved    int       `json:"interleaved"`     // recorder calls of a goroutine that were not adjacent (in call order) to its previous call: another goroutine's call came in between
-	Locations      int       `json:"locations"`       // rows of the location table
+	Flushes        int       `json:"flushes"`        // explicit Flush calls that returned
+	ThresholdPoss  bool      `json:"threshold_poss"` // the batch size was reached by the number of buffered items at least once
+	Overlap        int       `json:"overlap"`        // recorder calls that saw another goroutine inside a recorder call
+	FlushOverlap   int       `json:"flush_overlap"`  // … where one of the two was an explicit Flush
+	Interleaved    int       `json:"interleaved"`    // recorder calls of a goroutine that were not adjacent (in call order) to its previous call: another goroutine's call came in between
+	Locations      int       `json:"locations"`      // rows of the location table
 	TablesWithRows int       `json:"tables_with_rows"`
 	Rejected       []string  `json:"rejected,omitempty"` // special classes the storage layer refused loudly
 	Classes        []string  `json:"classes,omitempty"`
